@@ -208,6 +208,8 @@ func a16RemoveLocks(be backend.Backend) {
 	}
 }
 
+var a16Dec *zstd.Decoder
+
 // a16BlobReadable decides — independently of streamPack / RepairPacks — whether the bytes of pack
 // file content `raw` at the entry's position decrypt (MAC ok), decompress and hash to the entry's
 // ID, i.e. whether this blob "can still be read" from the pack.
@@ -229,12 +231,14 @@ func a16BlobReadable(repo *repository.Repository, raw []byte, e a16Entry) bool {
 		return false
 	}
 	if e.ULen != 0 {
-		dec, err := zstd.NewReader(nil)
-		if err != nil {
-			panic(err)
+		if a16Dec == nil {
+			d, err := zstd.NewReader(nil)
+			if err != nil {
+				panic(err)
+			}
+			a16Dec = d
 		}
-		defer dec.Close()
-		pt, err = dec.DecodeAll(pt, nil)
+		pt, err = a16Dec.DecodeAll(pt, nil)
 		if err != nil {
 			return false
 		}
